@@ -38,15 +38,40 @@ THEOREMS_FOR = {
     "C05": THEOREMS_EQ + _Q(["gen_track_safe", "gen_beat_safe", "gen_ovw_safe_partial", "gen_cues_safe_partial",
                              "gen_loops_safe_partial"]),
 }
+# ---- schema 1.x: lean/EngineModel/Gen/ImplV1Gen.lean (tools/tr_blobs_v1.py), design/codegen_v1.md
+V1_MODULES = ["Proofs.ImplV1Gen", "Proofs.ImplV1GenTransfer"]
+_Q1 = lambda names: ["EngineModel.Gen.ImplV1." + t for t in names]
+# regenerated 1.x decoder = hand model Impl.V1.* (`_partial`: payload below 2^62 / 2^63 / 2^60 / 2^61 bytes)
+THEOREMS_V1_EQ = _Q1(["decodeTrack_eq", "decodeOvw_eq_partial", "decodeHires_eq_partial", "decodeCues_eq_partial",
+                      "decodeLoops_eq_partial"])
+THEOREMS_V1_ENC = _Q1(["encodeTrack_eq"])
+THEOREMS_V1_FOR = {
+    "C02": THEOREMS_V1_EQ + THEOREMS_V1_ENC +
+           _Q1(["gen_v1_track_spec", "gen_v1_ovw_spec_partial", "gen_v1_hires_spec_partial",
+                "gen_v1_cues_spec_partial", "gen_v1_loops_spec_partial"]),
+    "C03": THEOREMS_V1_ENC + _Q1(["gen_v1_track_readback", "gen_v1_track_total"]),
+    "C05": THEOREMS_V1_EQ + _Q1(["gen_v1_track_safe", "gen_v1_ovw_safe_partial", "gen_v1_hires_safe_partial",
+                                 "gen_v1_cues_safe_partial", "gen_v1_loops_safe_partial"]),
+}
+THEOREMS_V1 = sorted(set(sum(THEOREMS_V1_FOR.values(), [])))
+for _k, _v in THEOREMS_V1_FOR.items():
+    THEOREMS_FOR[_k] = THEOREMS_FOR[_k] + _v
+LEAN_MODULES = LEAN_MODULES + V1_MODULES
+THEOREMS_V2 = sorted(set(t for t in sum(THEOREMS_FOR.values(), []) if t not in THEOREMS_V1))
 THEOREMS = sorted(set(sum(THEOREMS_FOR.values(), [])))
 # C04's transfer file imports Properties.C04; the other properties do not see it (statement printing context)
 MODULES_FOR = {"C04": LEAN_MODULES + ["Proofs.ImplV2GenC04"]}
 ALL_MODULES = LEAN_MODULES + ["Proofs.ImplV2GenC04"]
-TRUSTED_EXTRA = ["tools/tr_blobs.py (clang-14 JSON AST of src/djinterop/engine/v2/*_blob.cpp -> cursor-monad definitions; "
+TRUSTED_EXTRA = ["tools/tr_blobs_v1.py (clang-14 JSON AST of src/djinterop/engine/v1/performance_data_format.cpp -> cursor / writer "
+                 "monad definitions; mapping, struct table and default-initialiser check listed in design/codegen_v1.md)",
+                 "tools/tr_blobs.py (clang-14 JSON AST of src/djinterop/engine/v2/*_blob.cpp -> cursor-monad definitions; "
                  "node-kind -> combinator mapping and C++ struct <-> Lean structure table listed in design/codegen.md)"]
 ASSUMPTIONS = [
     "regenerated model: the Lean definitions of lean/EngineModel/Gen/ImplV2Gen.lean are produced from clang's typed AST "
-    "of the working tree on every run; each is proved equal to the hand model Impl.V2.* (Proofs/ImplV2Gen.lean). A "
+    "of the working tree on every run; each is proved equal to the hand model Impl.V2.* (Proofs/ImplV2Gen.lean) "
+    "(1.x: lean/EngineModel/Gen/ImplV1Gen.lean from v1/performance_data_format.cpp, equalities in Proofs/ImplV1Gen.lean for "
+    "the decoders of track / overview / high-res waveform / quick cues / loops data and the track encoder; the 1.x beat codec "
+    "and the other 1.x encoders are regenerated and executed against the library but not proved equal). A "
     "function outside the translator's fragment keeps its last translation (status `unsupported-node: <kind> at "
     "<file:line>` under coverage.translators) and is then tied by the differential run only",
 ]
@@ -58,7 +83,13 @@ def _translate():
     return (r.stdout.strip() or r.stderr.strip()[-300:])
 
 
-TRANSLATORS = {"v2/*_blob.cpp": _translate}
+def _translate_v1():
+    r = subprocess.run([sys.executable, os.path.join(VERIF, "tools", "tr_blobs_v1.py")],
+                       stdout=subprocess.PIPE, stderr=subprocess.PIPE, text=True)
+    return (r.stdout.strip() or r.stderr.strip()[-300:])
+
+
+TRANSLATORS = {"v2/*_blob.cpp": _translate, "v1/performance_data_format.cpp": _translate_v1}
 
 
 # ---------------------------------------------------------------------------------------------
@@ -171,5 +202,7 @@ if __name__ == "__main__" and sys.argv[1:2] == ["lock"]:
     lb = audit.lake_build()
     if not lb["ok"]:
         raise SystemExit("lake build failed:\n" + lb["log"])
-    l = audit.write_lock("ImplV2Gen", THEOREMS, imports=tuple(ALL_MODULES))
+    l = audit.write_lock("ImplV2Gen", THEOREMS_V2, imports=tuple(ALL_MODULES))
     print("locked %d statements (lean/Properties/locks/ImplV2Gen.json)" % len(l))
+    l = audit.write_lock("ImplV1Gen", THEOREMS_V1, imports=tuple(ALL_MODULES))
+    print("locked %d statements (lean/Properties/locks/ImplV1Gen.json)" % len(l))
